@@ -207,6 +207,10 @@ func (m *TlvModel) GenReadFrom(buf *bytes.Buffer) error {
 						}
 						handled = true
 						err = reader.Skip(int(l))
+						{{- if (eq $.Model.Ordered true)}}
+						// an unrecognized element does not consume a field position
+						progress--
+						{{- end}}
 					}
 					if err == nil && !handled {
 						{{- if (eq $.Model.Ordered true)}}
